@@ -1,6 +1,7 @@
 #!/bin/bash
-# check_seed.sh <seed-name> [property ...] : applies seeded/<name>/patch.diff to a scratch copy of /repo's working tree
-# and runs the lhcheck quick check of the given properties (default: the seed's own property) against it.
+# check_seed.sh <seed-name> [property ...] : applies seeded/<name>/patch.diff to a scratch copy of /repo's working tree,
+# runs the lhcheck quick check of the given properties (default: the seed's own) on it, and reports the violation keys that
+# are NEW with respect to the unpatched tree.
 set -u
 NAME=$1; shift
 D=/verif/seeded/$NAME
@@ -10,10 +11,14 @@ WT=/tmp/lhseed_$$_$(echo $NAME | tr -c 'A-Za-z0-9\n' '_')
 mkdir -p $WT && rsync -a --exclude .git /repo/ $WT/
 if ! (cd $WT && patch -p1 -s --no-backup-if-mismatch < $D/patch.diff >/dev/null 2>&1); then echo "SEED $NAME: patch does not apply to current tree"; rm -rf $WT; exit 2; fi
 rc_all=0
+keys() { grep -E ": (VIOLATION|UNDECIDED|VACUOUS) " | sed -E 's/^[^ ]+ (VIOLATION|UNDECIDED|VACUOUS) ([^ ]+): .*/\2/' | sort -u; }
 for P in $PROPS; do
-  out=$(/verif/bin/lhcheck -property $P -repo $WT -no-evidence 2>&1); rc=$?
-  if [ $rc -ne 0 ]; then
-    echo "SEED $NAME: DETECTED by $P"; echo "$out" | grep -E "VIOLATION|UNDECIDED|VACUOUS" | grep -v "^VIOLATION property" | cut -c1-${CUT:-260} | sed 's/^/    /' | head -${HEADN:-4}
+  if ! /verif/bin/lhcheck -list | grep -q "^$P$"; then echo "SEED $NAME: $P not claimed"; continue; fi
+  base=$(/verif/bin/lhcheck -property $P -no-evidence 2>&1 | keys)
+  out=$(/verif/bin/lhcheck -property $P -repo $WT -no-evidence 2>&1)
+  new=$(comm -13 <(echo "$base") <(echo "$out" | keys))
+  if [ -n "$new" ]; then
+    echo "SEED $NAME: DETECTED by $P"; echo "$new" | head -${HEADN:-3} | cut -c1-${CUT:-240} | sed 's/^/    /'
     rc_all=1
   else
     echo "SEED $NAME: missed by $P"
